@@ -1,5 +1,6 @@
 """C04 — string->integer parsing is exact with exact overflow detection."""
 import gens
+import vlib
 
 ID = "C04"
 LEAN_MODULES = ["LexVerif.Props.C04", "LexVerif.Props.TablesUtil", "LexVerif.Props.Literals.ParseInteger", "LexVerif.Props.Literals.Util"]
@@ -39,3 +40,25 @@ def nontrivial(op, res):
     if t[0] == "err" and t[1] == "InvalidDigit" and t[2] not in ("0", "-"):
         return True
     return False
+
+
+def post(ctx, bins):
+    return sweep_post(ctx, bins)
+
+
+def sweep_post(ctx, bins):
+    """thorough tier: Display's text of every u32/i32 value parses back (complete and partial), natively"""
+    if ctx["tier"] != "thorough":
+        return []
+    viol = []
+    total = 0
+    for (fs, profile), binp in sorted(bins.items()):
+        if fs not in ("default", "compact"):
+            continue
+        ops = vlib.sweep_ops("xpi", "u32", 0, 1 << 32, 64) + vlib.sweep_ops("xpi", "i32", -(1 << 31), 1 << 31, 64)
+        res = vlib.run_sweeps(binp, ops)
+        v, n = vlib.sweep_violations(res, fs, profile, lambda op, first: "dpi %s 0 %s" % (op.split(" ")[1], first.encode().hex()))
+        viol += v
+        total += n
+    ctx["post_evaluations"] = ctx.get("post_evaluations", 0) + total
+    return viol
